@@ -28,7 +28,7 @@ RULE = ("template machine with after timers, delayed raises, an invoked service,
         "own timers x random lifecycle scripts of 4-14 calls x sync+async; one evaluation = one "
         "history; non-trivial = history with a stop() while timers/services/children were live, "
         "or an out-of-order call; distinct = hash(script, engine)")
-ASSUMPTIONS = ["sync engine threads are signalled, not joined, by stop(): they get a 1.5 s grace "
+ASSUMPTIONS = ["sync engine threads are signalled, not joined, by stop(): they get a 6 s grace "
                "to exit before the census counts them"]
 NCHUNKS = 16
 LIBERR = xs.XStateMachineError
@@ -115,12 +115,12 @@ def build(engine, log, clock):
         return {"src": "kid2", "id": "j%d" % n["k"]}
     cfg = {"id": "m", "initial": "idle", "on": {"TICK": {"actions": ["tick"]}},
            "states": {
-               "idle": {"after": {"500": {"actions": ["longtick"]}},
+               "idle": {"after": {"500" if engine == "async" else "4000": {"actions": ["longtick"]}},
                         "on": {"WORK": "busy", "FIN": "fin", "FAIL": "failing", "SLOW": {"actions": ["slow"]},
                                "SPAWN": {"actions": [{"type": "xstate.spawnChild", "params": spawn_params}]},
                                "SPAWN2": {"actions": [{"type": "xstate.spawnChild", "params": spawn2_params}]},
                                "DELAY": {"actions": [{"type": "xstate.raise", "params": {
-                                   "event": "TICK", "delay": 20 if engine == "async" else 400}}]},
+                                   "event": "TICK", "delay": 20 if engine == "async" else 4000}}]},
                                "STOPME": {"actions": ["stop_self", "after_stop_marker"]}}},
                "busy": {"after": {"15": {"target": "idle", "actions": ["timeout"]}},
                         "invoke": {"src": "svc", "id": "i1", "onDone": {"target": "idle", "actions": ["svcdone"]}},
@@ -269,7 +269,7 @@ def run_async(res, script, idx):
                     await census_async(J, it, log, base_tasks, loop)
                     it = Interpreter.from_snapshot(snap, machine)
                     restored[id(it)] = False
-                    for a in it._actors.values():
+                    for a in _descendants(it):
                         restored[id(a)] = False
                     try:
                         await it.start()
@@ -395,7 +395,7 @@ def run_sync(res, script, idx):
                     census_sync(J, it, log, all_kids)
                     it = SyncInterpreter.from_snapshot(snap, machine)
                     restored[id(it)] = False
-                    for a in it._actors.values():
+                    for a in _descendants(it):
                         restored[id(a)] = False
                     try:
                         it.start()
@@ -431,22 +431,23 @@ def run_sync(res, script, idx):
 def census_sync(J, it, log, kids):
     J.res.count("census.after-stop")
     # timer / delayed-send threads are signalled by stop() and wake at once; the delays in the
-    # template (400-500 ms) are far longer than the grace, so a thread that was NOT released is
+    # template (4 s in the sync engine) are far longer than the grace (1.2 s, generous so that a
+    # released thread gets to run on a loaded machine), so a thread that was NOT released is
     # still waiting when the grace ends.  Actor threads poll every 10 ms and get longer.
     t1 = time.time()
     def waiting():
         return [t for t in observe.engine_threads() if t.name.startswith(("after-", "send-"))]
-    while waiting() and time.time() - t1 < 0.15:
+    while waiting() and time.time() - t1 < 1.2:
         time.sleep(0.003)
     left = [t.name.split("::")[0] for t in waiting()]
     if left:
         J.v("C14:timer-or-send-thread-not-released-by-stop",
-            "threads still waiting 150 ms after stop() returned: %s" % left[:3])
-    while observe.engine_threads() and time.time() - t1 < 1.5:
+            "threads still waiting 1.2 s after stop() returned: %s" % left[:3])
+    while observe.engine_threads() and time.time() - t1 < 6.0:
         time.sleep(0.004)
     left = [t.name.split("::")[0] for t in observe.engine_threads()]
     if left:
-        J.v("C14:threads-alive-after-stop", "engine threads alive 1.5 s after stop(): %s" % left[:3])
+        J.v("C14:threads-alive-after-stop", "engine threads alive 6 s after stop(): %s" % left[:3])
     for a in kids + _descendants(it):
         if a.status not in ("stopped", "uninitialized"):
             J.v("C14:descendant-actor-not-stopped", "child %s is %s after parent stop()" % (a.id, a.status))
@@ -473,7 +474,7 @@ def run_chunk(spec):
     observe.quiet_logs()
     res = Result()
     tier, ci = spec["tier"], spec["chunk"]
-    wd = Watchdog(res, 120.0)
+    wd = Watchdog(res, 400.0)
     n_async = 60 if tier == "quick" else 24000
     n_sync = 8 if tier == "quick" else 600
     base = ci * 100000
